@@ -210,6 +210,22 @@ func (d *Disk) Counts() [NumCallKinds]int {
 	return d.counts
 }
 
+// ArmedFault returns the armed fault plan (nil if none).
+func (d *Disk) ArmedFault() *Fault {
+	d.mu.Lock()
+	defer d.mu.Unlock()
+	return d.fault
+}
+
+// FaultOver reports whether the armed fault plan can not fire any more (all
+// calls of its burst have been issued), or no plan is armed.
+func (d *Disk) FaultOver() bool {
+	d.mu.Lock()
+	defer d.mu.Unlock()
+	f := d.fault
+	return f == nil || d.counts[f.Kind] >= f.Ordinal+f.Burst
+}
+
 // Injected returns the number of calls that failed by injection since Arm.
 func (d *Disk) Injected() int {
 	d.mu.Lock()
